@@ -16,7 +16,10 @@ RULE = (
     "each choosing {ingest, -ni} x {-ug, -} x {-se, -}; the first run "
     "ingests. Data sets: 1..3 workflows x 1..6 template traces (as C14) of "
     "which some repeat a call-tree shape, plus optionally one trace with a "
-    "dangling parent (removed by cleaning); sync or async. Quick: ALL 36 "
+    "dangling parent (removed by cleaning); half of the data sets use "
+    "minute-scale times with time_buffer=1 (traces at the edges are removed "
+    "by the first cleaning); sync or async; one large data set (~1100 "
+    "spans, batch size 1000) runs two short histories. Quick: ALL 36 "
     "histories of length <=2 on one drawn data set per seed; thorough: all "
     "292 of length <=3 on two data sets plus drawn histories of length 4 on "
     "drawn data sets. Oracle (model-based): every run exits 0; every run "
@@ -29,7 +32,7 @@ RULE = (
 ASSUMPTIONS = [
     "reference sequencer vlib/refseq.py (C08) and canonical shapes (C09) "
     "give the expected outputs",
-    "each run writes to a fresh output directory; time_buffer = 0",
+    "each run writes to a fresh output directory",
 ]
 EXHAUSTIVE = ("quick", "thorough")
 FLAGS = list(itertools.product([True, False], [False, True], [False, True]))
@@ -60,13 +63,25 @@ def run_history(case):
         data_case.pop("mapping", None)
         cfgp, _ = c14.write_inputs(data_case, tmp)
         wfs = c14.spans_of(data_case)
-        # expectation: traces with a dangling parent are removed
+        # expectation: traces with a dangling parent are removed, and so
+        # are traces with no span start or end inside the buffered window
+        # (window from everything ingested, as in C11)
+        tb = data_case.get("time_buffer", 0) * 60 * 10**9
+        allsp = [s for tr in wfs.values() for sp in tr.values()
+                 for s in sp.values()]
+        lo = min(s["start"] for s in allsp) + tb
+        hi = max(s["end"] for s in allsp) - tb
+        if lo >= hi:
+            raise Violation("harness: drawn data set has an empty window")
         want = {}
         for name, traces in wfs.items():
             for tid, spans in traces.items():
                 ids = set(spans)
                 if any(s["parent"] is not None and s["parent"] not in ids
                        for s in spans.values()):
+                    continue
+                if not any(lo <= s["start"] <= hi or lo <= s["end"] <= hi
+                           for s in spans.values()):
                     continue
                 root = [i for i, s in spans.items() if s["parent"] is None][0]
                 pv = refseq.expected_pv(spans, bool(data_case.get("async")))
@@ -156,6 +171,41 @@ def replay(case):
     return None
 
 
+def window_effect(d):
+    """(#traces kept, #traces removed by the window) of a data set"""
+    import checks.c14 as c14
+    wfs = c14.spans_of(d)
+    tb = d.get("time_buffer", 0) * 60 * 10**9
+    allsp = [s for tr in wfs.values() for sp in tr.values()
+             for s in sp.values()]
+    lo = min(s["start"] for s in allsp) + tb
+    hi = max(s["end"] for s in allsp) - tb
+    kept = removed = 0
+    for traces in wfs.values():
+        for spans in traces.values():
+            if any(lo <= s["start"] <= hi or lo <= s["end"] <= hi
+                   for s in spans.values()):
+                kept += 1
+            else:
+                removed += 1
+    return kept, removed
+
+
+def big_dataset():
+    """one workflow, 140 traces of 8 spans (two shapes), batch size 1000"""
+    tmpl = [[None, "A0", 0, 9], [0, "A1", 1, 2], [0, "A2", 4, 2],
+            [1, "A3", 1, 1], [2, "A4", 4, 1], [2, "A5", 5, 1],
+            [0, "A6", 7, 1], [6, "A7", 7, 1]]
+    traces = []
+    for i in range(140):
+        tr = [list(t) for t in tmpl]
+        if i % 3 == 0:
+            tr[7][1] = "A7x"
+        traces.append(tr)
+    return {"workflows": [{"name": "big", "app": "app", "traces": traces}],
+            "async": False, "files": 2, "batch": 1000, "sched": 0}
+
+
 def classify(case):
     h = case["history"]
     ugs = [i for i, x in enumerate(h) if x[1]]
@@ -167,6 +217,13 @@ def classify(case):
         cl.append("re_ingest")
     if len(ugs) >= 2:
         cl.append("ug_after_ug")
+    if case["data"].get("time_buffer"):
+        cl.append("time_buffer>0")
+        if window_effect(case["data"])[1]:
+            cl.append("window_removes_a_trace")
+    if sum(len(t) for w in case["data"]["workflows"]
+           for t in w["traces"]) > 999:
+        cl.append("more_than_999_spans_in_one_batch")
     if any(len(w["traces"]) and any(t[1][0] == 99 for t in w["traces"]
                                     if len(t) > 1)
            for w in case["data"]["workflows"]):
@@ -190,6 +247,23 @@ def data_strategy():
                     tr[1][0] = 99          # parent that exists nowhere
                     w["traces"].append(tr)
         d.pop("order", None)
+        if draw(st.booleans()):
+            # minute scale timestamps and a time buffer that bites
+            d["tunit"] = 10 * 10**9
+            d["time_buffer"] = 2
+            # traces of a workflow share the template's timing: shift each
+            # trace so that some lie entirely inside the buffers
+            for w in d["workflows"]:
+                w["traces"] = [[[t[0], t[1], t[2] + off, t[3]] for t in tr]
+                               for tr, off in zip(w["traces"], [draw(
+                                   st.sampled_from([0, 0, 6, 20, 40, 100]))
+                                   for _ in w["traces"]])]
+            hi = max(t[2] + t[3] for w in d["workflows"]
+                     for tr in w["traces"] for t in tr)
+            lo = min(t[2] for w in d["workflows"] for tr in w["traces"]
+                     for t in tr)
+            if (hi - lo) * 10 <= 2 * 120 + 30:
+                d["time_buffer"] = 0
         return d
     return build()
 
@@ -199,7 +273,7 @@ def draw_datasets(n, seed):
     out = []
 
     @hseed(seed)
-    @settings(max_examples=max(n * 4, 8), database=None, deadline=None,
+    @settings(max_examples=max(n * 30, 60), database=None, deadline=None,
               phases=[Phase.generate],
               suppress_health_check=list(HealthCheck))
     @given(data_strategy())
@@ -209,7 +283,9 @@ def draw_datasets(n, seed):
     t()
     def score(d):
         ntr = sum(len(w["traces"]) for w in d["workflows"])
+        k, r = window_effect(d) if d.get("time_buffer") else (1, 0)
         return (len(d["workflows"]) >= 2) + (ntr >= 4) + \
+            bool(d.get("time_buffer")) + 2 * bool(k and r) + \
             any(t[1][0] == 99 for w in d["workflows"] for t in w["traces"]
                 if len(t) > 1)
     out.sort(key=score, reverse=True)
@@ -243,6 +319,22 @@ def run_shard(ctx):
             except Violation as v:
                 ctx.violation(case, str(v))
                 return
+    # one large data set (a batch holds more than 999 distinct span ids)
+    big = [[[True, False, False], [True, False, True]],
+           [[True, True, False], [False, True, True]]]
+    for bi, h in enumerate(big):
+        if (ctx.nshards - 1 - bi) % ctx.nshards != ctx.shard:
+            continue
+        case = {"data": big_dataset(), "history": h}
+        nt, cl = classify(case)
+        ctx.record({"data": "big_dataset()", "history": h}, nt,
+                   cl + ["large"])
+        ctx.count("process_runs", len(h))
+        try:
+            run_history(case)
+        except Violation as v:
+            ctx.violation(case, str(v))
+            return
     if ctx.tier == "thorough":
         from hypothesis import strategies as st
         flags = st.tuples(st.booleans(), st.booleans(), st.booleans())
